@@ -100,6 +100,17 @@ CHECKS = {
         "Trusted: mc/probe.py probes (constant natural sizes); weakest readings listed in the evidence assumptions; zero weights / zero given sizes excluded by the statement's precondition.",
         "DESIGN.md §4 C19",
     ),
+    "C01": (
+        MC,
+        "bounded-exhaustive enumeration of a sizing-typed widget-tree grammar (leaves -> every constructor over every fitting leaf -> every constructor over one representative per (constructor, sizing set)) x every size of every reported sizing mode x focus x three encodings; each render judged against the widget's own rows()/pack() and a reference width model",
+        "~80 leaves (Text over text classes x wrap x align, Edit at cursor positions, buttons, Divider, ProgressBar, SolidFill, BigText, BarGraph, ListBox, empty containers), "
+        "~75 constructors (Padding/Filler option menus, decorations, LineBox variants, BoxAdapter, Pile/Columns given/pack/weight/box_columns, GridFlow, Frame parts, Overlay kinds, "
+        "ListBox, Scrollable, ScrollBar), two levels of nesting, cols {1,2,3,5}/{1..6,9} x rows {1,2,4}/{1,2,3,4,6}, focus, utf8 / euc-jp / iso-8859-1: size, rows()/pack() agreement, "
+        "row count, per-row column width, cursor containment.",
+        "Trusted: mc/refs/widths.py; slot typing by reported sizing(); trees for which urwid itself warns are skipped; failures are attributed to the smallest failing subtree; "
+        "~100 listed known findings (degenerate sizes, fixed/flow modes of Overlay/Padding/LineBox, empty containers).",
+        "DESIGN.md §4 C01",
+    ),
 }
 
 PENDING_REASON = "check not built yet in this round (see DESIGN.md Appendix B build order); no claim is made"
